@@ -2,7 +2,7 @@
     kinds it fans out to:
       - net/http.Server.Shutdown(ctx)            (HTTP/HTTPS/Prometheus listeners)
       - tcp.Server.Shutdown(ctx)                 (proxy/tcp/server.go:122-128; tcp, tcp+sni, tcp-dynamic)
-      - gRPCServer.Shutdown(ctx)                 (proxy/grpc_handler.go:38-41: GracefulStop, ctx unused)
+      - gRPCServer.Shutdown(ctx)                 (proxy/grpc_handler.go:38-52: GracefulStop raced against ctx, then Stop)
       - InetAfTCPProxyServer.Shutdown(ctx)       (proxy/inetaf_tcpproxy.go:85-103: https+tcp+sni composite)
     Time is abstract: shutdown begins at 0, every open work item has a remaining duration
     [d] in N + {oo}; the configured wait is a natural number.  proxy.Shutdown starts one
@@ -47,8 +47,13 @@ Inductive kind :=
 Definition kind_eqb (a b : kind) : bool :=
   match a, b with KHttp, KHttp | KTcp, KTcp | KGrpc, KGrpc => true | _, _ => false end.
 
-(* a leaf server with the remaining durations of its open requests / tunnels / streams *)
-Record leaf := { lkind : kind; litems : list dur }.
+(* a leaf server with the remaining durations of its open requests / tunnels / streams.
+   [lstuck] (TCP kind only, ignored for the others): connections whose handler goroutine is
+   blocked for that long in a phase that closing the client connection does not interrupt
+   (tcp.Proxy inside net.DialTimeout to an upstream that does not answer, a slow PROXY-header
+   write, a slow custom tcp.Handler); such a handler produces no answer, it just returns. *)
+Record leaf := { lkind : kind; litems : list dur; lstuck : list dur }.
+Definition mkleaf (k : kind) (ds : list dur) : leaf := {| lkind := k; litems := ds; lstuck := [] |}.
 
 Inductive server :=
 | Single (l : leaf)
@@ -63,14 +68,21 @@ Inductive step :=
 | WaitIdleOrDeadline   (* http.Server.Shutdown: poll until no connection is active, or ctx is done; nothing is interrupted *)
 | WaitDeadline         (* tcp.Server.Shutdown: <-ctx.Done(), unconditionally *)
 | CloseConns           (* tcp.Server.closeConns / grpc.Server.Stop: every open connection is closed now *)
-| WaitAll.             (* grpc.Server.GracefulStop: wait until every stream has ended; no deadline *)
+| WaitAll              (* grpc.Server.GracefulStop: wait until every stream has ended; no deadline *)
+| WaitHandlers.        (* NOT in the code: wait until every per-connection handler goroutine has returned *)
 
 Definition http_prog : list step := [CloseListener; WaitIdleOrDeadline].
 Definition tcp_prog  : list step := [CloseListener; WaitDeadline; CloseConns].
-(* the code as it is: the context is ignored *)
-Definition grpc_prog : list step := [CloseListener; WaitAll].
-(* the minimal repair: GracefulStop raced against ctx.Done(), then Stop *)
-Definition grpc_prog_deadline : list step := [CloseListener; WaitIdleOrDeadline; CloseConns].
+(* a variant that is NOT the code (tcp.Server.Shutdown does not wait for its handler
+   goroutines): kept to show what such a wait would cost, see Proofs *)
+Definition tcp_prog_waiting_for_handlers : list step := tcp_prog ++ [WaitHandlers].
+(* the code as it is (since fix: 72215e8): GracefulStop runs in a goroutine and is raced against
+   ctx.Done(); on expiry grpc.Server.Stop() closes the remaining streams.  (When the graceful
+   stop wins, the CloseConns step finds nothing open: every item has ended by then.) *)
+Definition grpc_prog : list step := [CloseListener; WaitIdleOrDeadline; CloseConns].
+(* the code as it was before 72215e8 (finding F-C18-1, repaired): GracefulStop only, the context
+   ignored.  Used by the refutation theorems only. *)
+Definition grpc_prog_unrepaired : list step := [CloseListener; WaitAll].
 
 Definition prog_of (gp : list step) (k : kind) : list step :=
   match k with KHttp => http_prog | KTcp => tcp_prog | KGrpc => gp end.
@@ -83,7 +95,7 @@ Record lstate := {
 }.
 Definition lstate0 : lstate := {| now := Fin 0; closed_at := None; cut_at := None |}.
 
-Definition exec_step (wait : N) (items : list dur) (s : lstate) (st : step) : lstate :=
+Definition exec_step (wait : N) (items stuck : list dur) (s : lstate) (st : step) : lstate :=
   match st with
   | CloseListener =>
       {| now := now s;
@@ -98,10 +110,12 @@ Definition exec_step (wait : N) (items : list dur) (s : lstate) (st : step) : ls
          cut_at := match cut_at s with None => Some (now s) | c => c end |}
   | WaitAll =>
       {| now := dmax (now s) (dmax_list items); closed_at := closed_at s; cut_at := cut_at s |}
+  | WaitHandlers =>
+      {| now := dmax (now s) (dmax_list stuck); closed_at := closed_at s; cut_at := cut_at s |}
   end.
 
-Definition exec (wait : N) (items : list dur) (p : list step) : lstate :=
-  fold_left (exec_step wait items) p lstate0.
+Definition exec (wait : N) (items stuck : list dur) (p : list step) : lstate :=
+  fold_left (exec_step wait items stuck) p lstate0.
 
 (* what happens to one open item *)
 Inductive fate :=
@@ -117,15 +131,22 @@ Definition item_fate (s : lstate) (d : dur) : fate :=
   | None => match d with Fin n => Done n | Inf => Never end
   end.
 
+(* the client of a connection whose handler is stuck sees it closed when the handler returns or
+   when the server closes the connections, whichever is first (closing does not wake the handler) *)
+Definition stuck_fate (s : lstate) (b : dur) : fate :=
+  Cut (match cut_at s with Some c => dmin b c | None => b end).
+
 Record lresult := {
   r_ret : dur;               (* when this server's Shutdown returns *)
   r_closed : option dur;     (* when its listener stopped accepting *)
-  r_fates : list fate
+  r_fates : list fate;
+  r_stuck : list fate        (* what the clients of the stuck handlers see *)
 }.
 
 Definition run_leaf (gp : list step) (wait : N) (l : leaf) : lresult :=
-  let s := exec wait (litems l) (prog_of gp (lkind l)) in
-  {| r_ret := now s; r_closed := closed_at s; r_fates := map (item_fate s) (litems l) |}.
+  let s := exec wait (litems l) (lstuck l) (prog_of gp (lkind l)) in
+  {| r_ret := now s; r_closed := closed_at s; r_fates := map (item_fate s) (litems l);
+     r_stuck := map (stuck_fate s) (lstuck l) |}.
 
 Record sresult := {
   s_ret : dur;
@@ -156,8 +177,8 @@ Definition shutdown_with (gp : list step) (wait : N) (srvs : list server) : resu
 
 (* the code as it is *)
 Definition shutdown := shutdown_with grpc_prog.
-(* the code with a gRPC shutdown that honours the deadline *)
-Definition shutdown_fixed := shutdown_with grpc_prog_deadline.
+(* the code as it was before the gRPC Shutdown honoured its deadline (refutation theorems only) *)
+Definition shutdown_unrepaired := shutdown_with grpc_prog_unrepaired.
 
 (* does server [r] accept a connection attempted at time [t] (>= 0, i.e. after shutdown began)? *)
 Definition leaf_accepts (r : lresult) (t : N) : bool :=
